@@ -79,6 +79,7 @@ type ex struct {
 	busy    map[types.Object]bool
 	events  []event
 	depth   int
+	quiet   int // > 0: evaluating a helper for its value only, no events
 }
 
 func structName(t types.Type) string {
@@ -127,17 +128,73 @@ func stripConv(x *ex, e ast.Expr) ast.Expr {
 	}
 }
 
-// isIntConv: a conversion to an integer type, T(e)
+// isIntConv: a conversion T(e) that does not change the value here: to an integer type, or
+// between types whose underlying type is bool (type toggle bool) or string
 func (x *ex) isIntConv(v *ast.CallExpr) bool {
 	if len(v.Args) != 1 {
 		return false
 	}
 	if tv, ok := x.p.Info.Types[v.Fun]; ok && tv.IsType() {
-		if b, ok := tv.Type.Underlying().(*types.Basic); ok && b.Info()&types.IsInteger != 0 {
-			return true
+		if b, ok := tv.Type.Underlying().(*types.Basic); ok {
+			if b.Info()&types.IsInteger != 0 {
+				return true
+			}
+			if st := x.p.Info.TypeOf(v.Args[0]); st != nil {
+				if sb, ok := st.Underlying().(*types.Basic); ok {
+					for _, k := range []types.BasicInfo{types.IsBoolean, types.IsString} {
+						if b.Info()&k != 0 && sb.Info()&k != 0 {
+							return true
+						}
+					}
+				}
+			}
 		}
 	}
 	return false
+}
+
+// pureCall: a call of an unexported helper of the package whose body is a few := definitions
+// followed by one "return e" (a set type's has(id): "_, ok := s[id]; return ok").  The call
+// stands for e with the receiver and the parameters bound.
+func (x *ex) pureCall(c *ast.CallExpr) (ast.Expr, bool) {
+	fd, o := x.callee(c)
+	if fd == nil || x.targets[o] || ast.IsExported(fd.Name.Name) || fd.Body == nil || x.depth >= 3 {
+		return nil, false
+	}
+	if fd.Type.Results == nil || fd.Type.Results.NumFields() != 1 || len(fd.Body.List) == 0 {
+		return nil, false
+	}
+	n := len(fd.Body.List)
+	ret, ok := fd.Body.List[n-1].(*ast.ReturnStmt)
+	if !ok || len(ret.Results) != 1 {
+		return nil, false
+	}
+	for _, st := range fd.Body.List[:n-1] {
+		as, ok := st.(*ast.AssignStmt)
+		if !ok || as.Tok != token.DEFINE {
+			return nil, false
+		}
+		for _, r := range as.Rhs {
+			impure := false
+			ast.Inspect(r, func(m ast.Node) bool {
+				if _, isCall := m.(*ast.CallExpr); isCall {
+					impure = true
+				}
+				return true
+			})
+			if impure {
+				return nil, false
+			}
+		}
+	}
+	x.bind(fd, c)
+	x.quiet++
+	for _, st := range fd.Body.List[:n-1] {
+		as := st.(*ast.AssignStmt)
+		x.define(as.Lhs, as.Rhs, "", "CTrue", true)
+	}
+	x.quiet--
+	return ret.Results[0], true
 }
 
 // text: canonical rendering of an opaque subexpression
@@ -177,6 +234,14 @@ func (x *ex) text(e ast.Expr) string {
 	case *ast.CallExpr:
 		if x.isIntConv(v) {
 			return x.text(v.Args[0]) // integer conversions do not change the value here
+		}
+		if e2, ok := x.pureCall(v); ok {
+			x.depth++
+			defer func() { x.depth-- }()
+			if _, isBin := e2.(*ast.BinaryExpr); isBin {
+				return "(" + x.text(e2) + ")"
+			}
+			return x.text(e2)
 		}
 		if sel, ok := v.Fun.(*ast.SelectorExpr); ok && sel.Sel.Name == "AnyInteresting" && len(v.Args) == 0 {
 			// osm.Tags.AnyInteresting() is hasInterestingTags(tags, nil) (C17_has_interesting_is_AnyInteresting,
@@ -377,6 +442,15 @@ func (x *ex) cx(e ast.Expr) string {
 				return x.cx(d)
 			}
 		}
+	case *ast.CallExpr:
+		if x.isIntConv(v) {
+			return x.cx(v.Args[0])
+		}
+		if e2, ok := x.pureCall(v); ok {
+			x.depth++
+			defer func() { x.depth-- }()
+			return x.cx(e2)
+		}
 	case *ast.UnaryExpr:
 		if v.Op == token.NOT {
 			return "CNot (" + x.cx(v.X) + ")"
@@ -431,7 +505,7 @@ func cnot(a string) string {
 }
 
 func (x *ex) emit(scope, kind, text, val, pc string) {
-	if pc == "CFalse" {
+	if pc == "CFalse" || x.quiet > 0 {
 		return
 	}
 	x.events = append(x.events, event{scope, kind, text, val, pc})
@@ -493,7 +567,14 @@ func (x *ex) calls(n ast.Node, scope, pc string, stmtLevel bool) {
 }
 
 func (x *ex) inline(fd *ast.FuncDecl, c *ast.CallExpr, scope, pc string) {
-	// bind the receiver and the parameters
+	x.bind(fd, c)
+	x.depth++
+	x.block(fd.Body.List, pc, scope, true)
+	x.depth--
+}
+
+// bind the receiver and the parameters of fd to the operands of the call
+func (x *ex) bind(fd *ast.FuncDecl, c *ast.CallExpr) {
 	if fd.Recv != nil && len(fd.Recv.List) == 1 && len(fd.Recv.List[0].Names) == 1 {
 		if sel, ok := c.Fun.(*ast.SelectorExpr); ok {
 			x.inl[x.p.Info.Defs[fd.Recv.List[0].Names[0]]] = sel.X
@@ -508,9 +589,6 @@ func (x *ex) inline(fd *ast.FuncDecl, c *ast.CallExpr, scope, pc string) {
 			i++
 		}
 	}
-	x.depth++
-	x.block(fd.Body.List, pc, scope, true)
-	x.depth--
 }
 
 func (x *ex) countAssigns(fd *ast.FuncDecl) {
@@ -946,13 +1024,53 @@ func main() {
 			if id, ok := fd.Type.Results.List[0].Type.(*ast.Ident); !ok || id.Name != "Option" {
 				continue
 			}
-			ast.Inspect(fd.Body, func(n ast.Node) bool {
-				if as, ok := n.(*ast.AssignStmt); ok && len(as.Lhs) == 1 && len(as.Rhs) == 1 && as.Tok == token.ASSIGN {
-					optRows = append(optRows, fmt.Sprintf("(%s, %s, %s)", tr.CoqString(fd.Name.Name),
-						tr.CoqString(x.text(as.Lhs[0])), x.cx(as.Rhs[0])))
-				}
-				return true
-			})
+			// the assignments of the option's closure: a function literal, or a method value /
+			// function value of the package standing for one (receiver and operands bound)
+			var collect func(n ast.Node, depth int)
+			collect = func(n ast.Node, depth int) {
+				ast.Inspect(n, func(n ast.Node) bool {
+					switch v := n.(type) {
+					case *ast.AssignStmt:
+						if len(v.Lhs) == 1 && len(v.Rhs) == 1 && v.Tok == token.ASSIGN {
+							optRows = append(optRows, fmt.Sprintf("(%s, %s, %s)", tr.CoqString(fd.Name.Name),
+								tr.CoqString(x.text(v.Lhs[0])), x.cx(v.Rhs[0])))
+						}
+					case *ast.ReturnStmt:
+						for _, r := range v.Results {
+							for {
+								pe, ok := r.(*ast.ParenExpr)
+								if !ok {
+									break
+								}
+								r = pe.X
+							}
+							var id *ast.Ident
+							var recv ast.Expr
+							switch f := r.(type) {
+							case *ast.SelectorExpr:
+								if sel := p.Info.Selections[f]; sel != nil && sel.Kind() == types.MethodVal {
+									id, recv = f.Sel, f.X
+								}
+							case *ast.Ident:
+								id = f
+							}
+							if id == nil || depth >= 3 {
+								continue
+							}
+							md := declOf[p.Info.Uses[id]]
+							if md == nil || md.Body == nil {
+								continue
+							}
+							if recv != nil && md.Recv != nil && len(md.Recv.List) == 1 && len(md.Recv.List[0].Names) == 1 {
+								x.inl[p.Info.Defs[md.Recv.List[0].Names[0]]] = recv
+							}
+							collect(md.Body, depth+1)
+						}
+					}
+					return true
+				})
+			}
+			collect(fd.Body, 0)
 		}
 	}
 	fmt.Fprintf(&b, "(* options.go: (option, context field, assigned value) *)\nDefinition option_sets : list (string * string * cx) := %s.\n\n", coqList(optRows, "    "))
